@@ -98,12 +98,17 @@ def run_C13(ctx):
     ctx.cov["keywords_accepted_by_real_scanner"] = res.get("extra", {}).get("keywords_accepted")
     st = ctx.vh("scan-replay", r.out, "selftest")
     ctx.selftest(st["n_mismatch"] == st["cases"], "C13 G: every corrupted expectation is reported")
+    # directive starts behind a Description text are found by a look-ahead over the rest of the line (a second recogniser)
+    rd = ctx.tlc("MC_C12", cfg="MC_C12_desc.cfg" if ctx.quick else "MC_C12_desc_thorough.cfg", timeout=1800, label="MC_C12(description)")
+    resd = ctx.vh("scan-replay", rd.out, env={"VH_DISTINCT": "len"})
+    ctx.absorb(resd, "G:scan-replay(behind a Description)")
 
 
 # ------------------------------------------------------------------------ C12
 def run_C12(ctx):
     ctx.cov["rule"] = ("G: one case per Feed edge of the byte-level scanner model over all tapes assembled from the chunk menu "
-                       "(12 single bytes of every class the scanner distinguishes, 30 keywords, a response code, 4 parameters, 4 bodies) up to MaxLen bytes; "
+                       "(12 single bytes of every class the scanner distinguishes, 30 keywords, a response code, 4 parameters, 4 bodies) up to MaxLen bytes (7 quick / 9 thorough), "
+                       "and over all tapes that start with a Description line followed by up to 6 / 8 bytes from a menu of line breaks, blanks, text, the '( )' frame, 3-byte keywords, codes and near-misses; "
                        "expectation = specification's run to end of file (type, begin, end of every lexeme; error index). "
                        "V: the real scanner on whole corpus files (every 4th quick / all thorough) and seeded mutations of them (<= 6 000 bytes), logged with the body extents the dependency accepted and re-executed by Scanner.tla (Trace_Scan.tla): same lexemes, same error index. "
                        "Non-trivial = distinct (outcome, error class, lexeme shape, tape length) / files with more than 3 lexemes.")
@@ -115,6 +120,10 @@ def run_C12(ctx):
     ctx.cov["exhaustive"] = True
     st = ctx.vh("scan-replay", r.out, "selftest")
     ctx.selftest(st["n_mismatch"] == st["cases"], "C12 G: every corrupted expectation is reported")
+    # tapes that start with a Description line (the keyword alone exhausts the general byte bound)
+    rd = ctx.tlc("MC_C12", cfg="MC_C12_desc.cfg" if ctx.quick else "MC_C12_desc_thorough.cfg", timeout=1800, label="MC_C12(description)")
+    resd = ctx.vh("scan-replay", rd.out, env={"VH_DISTINCT": "len"})
+    ctx.absorb(resd, "G:scan-replay(description)")
     # V: the real scanner on whole corpus files and mutations of them, judged by Scanner.tla
     tp = os.path.join(ctx.scratch, "trace_scan.ndjson")
     rec = ctx.vh("scan-record", REPO, tp, 4 if ctx.quick else 1, 1 if ctx.quick else 3, ctx.seed)
